@@ -11,6 +11,7 @@
     [register], ...) return the meta events they announce; [leave] is a
     session's departure for whatever reason. *)
 From Nexus Require Import Router.Realm Router.RealmProofs Router.RealmMetaProofs.
+From Nexus Require Import Router.BrokerWf Router.RealmWf Router.RealmStep Router.RealmC05.
 
 (** ** count_is_length: for the same arguments the count procedure yields the
     length of the list the list procedure yields (and fails when it fails). *)
@@ -349,6 +350,34 @@ Theorem pub_events_subs : forall lk pub pubid opts topic args kw subs rcv sub pi
     In sub (map (fun p => sub_id (fst p)) subs) /\ pid = pubid.
 Proof. exact RealmMetaProofs.pub_events_subs. Qed.
 Print Assumptions pub_events_subs.
+
+(** ** listed_fetchable (for realms satisfying the reachable-state invariant
+    [realm_wf], see Props/C05.v [reachable_realm_wf]) *)
+Theorem listed_sessions_fetchable : forall r d1 d2 args kw1 kw2 o1 o2 l x,
+    realm_wf r ->
+    resp_of (meta_call r "wamp.session.list" d1 args kw1 o1) = MYield [ids_value l] [] ->
+    In x l ->
+    exists det, meta_call r "wamp.session.get" d2 [vid x] kw2 o2 = (r, MYield [VDict det] [], None).
+Proof. exact RealmC05.listed_sessions_fetchable. Qed.
+Print Assumptions listed_sessions_fetchable.
+
+Theorem listed_subscriptions_fetchable : forall r k0 d2 kw2 o2 kind x,
+    realm_wf r -> ids_below k0 r -> k0 <= max_idN ->
+    In x (match sub_ids_by (r_broker r) kind with VList l => l | _ => [] end) ->
+    exists id s, x = vid id /\ nget (b_subs (r_broker r)) id = Some s /\
+                 meta_call r "wamp.subscription.get" d2 [x] kw2 o2 = (r, MYield [sub_dict s] [], None).
+Proof. exact RealmC05.listed_subscriptions_fetchable. Qed.
+Print Assumptions listed_subscriptions_fetchable.
+
+Theorem listed_registrations_fetchable_partial : forall r k0 d2 kw2 o2 kind x,
+    realm_wf r -> ids_below k0 r -> k0 <= max_idN ->
+    In x (match reg_ids_by (r_dealer r) kind with VList l => l | _ => [] end) ->
+    exists id, x = vid id /\
+      (0 < id ->
+       exists rg, nget (d_regs (r_dealer r)) id = Some rg /\
+                  meta_call r "wamp.registration.get" d2 [x] kw2 o2 = (r, MYield [reg_dict rg] [], None)).
+Proof. exact RealmC05.listed_registrations_fetchable_partial. Qed.
+Print Assumptions listed_registrations_fetchable_partial.
 
 (** ** Non-vacuity: a reachable realm (three sessions, a subscription, a
     registration, a meta-topic observer); the meta procedures reached through
